@@ -1,7 +1,7 @@
 #!/bin/bash
 # runall.sh [tier]: run every registered check, one line each
 T=${1:-quick}
-cd /verif
+cd "$(dirname "$0")/.."
 for id in $(python3 -c "import json;print(' '.join(c['property_id'] for c in json.load(open('MANIFEST.json'))['checks']))"); do
   s=$(date +%s)
   out=$(python3 tools/check.py $id --tier $T 2>&1); rc=$?
